@@ -1,5 +1,8 @@
 use std::collections::HashMap;
+#[cfg(not(feature = "verif-sim"))]
 use std::fs::{self, File};
+#[cfg(feature = "verif-sim")]
+use crate::common::simio::{self as fs, File};
 use std::io::{BufWriter, Write};
 use std::path::PathBuf;
 
@@ -23,6 +26,8 @@ pub struct Balances {
 
 impl Balances {
     fn create_writer(cap: usize, path: PathBuf) -> Result<BufWriter<File>> {
+        #[cfg(feature = "verif-sim")]
+        let cap = crate::common::simio::knob("writer_cap", cap);
         Ok(BufWriter::with_capacity(cap, File::create(path)?))
     }
 }
